@@ -68,8 +68,13 @@ def ids(ctx):
                     return True
         return False
 
+    wraps_in_read = bool(list(facts.fn(CC + "read").calls_to("server::ServerRequest::new"))) or any(list(c.calls_to("server::ServerRequest::new")) for c in facts.closures_of(CC + "read"))
+    if wraps_in_read:
+        # read() wraps the requests itself and fills the caller's vector: look at requests() with read() traversed inline
+        from ..paths import PathEnum
+        lv = PathEnum(fn, facts, inline_also=lambda p_, a_: p_ == CC + "read").run()
     for lf in lv:
-        rd = calls(lf, CC + "read")
+        rd = calls(lf, CC + "read") or [e for e in lf.events if e[0] == "inlined-call" and e[3] == CC + "read"]
         if not rd:
             continue
         ev = srv.event_term(lf)
@@ -92,6 +97,10 @@ def ids(ctx):
                 if is_call(it, "into_iter"):
                     it = look(it[2][0])
             src_ok = it is not None and payload_of(it) is not None and norm(payload_of(it)) == norm(rd[0][4])
+            if wraps_in_read and not src_ok:
+                # inside read(): the wrapped request was popped from the connection being read
+                pops = [s_ for s_ in subterms(req) if isinstance(s_, tuple) and is_call(s_, conn.P + "pop_parsed_request")]
+                src_ok = bool(pops)
             ctx.ob("R07.1", "wrap|id-is-event-data", id_ok, "ServerRequest::new(request, e.data()) with e the event being handled", fn.loc(w[1]))
             ctx.ob("R07.1", "wrap|over-requests-just-read", src_ok, "each wrapped request is an item of the vector read() just returned for that event", fn.loc(w[1]))
             ctx.ob("R07.1", "wrap|yielded", reaches_yield(lf, w[4]), "the wrapped request is added to the vector requests() returns", fn.loc(w[1]))
@@ -108,6 +117,12 @@ def ids(ctx):
             cap_ok = cap_is_event or cap_is_data
             src = look(m[4][2][0])
             src_ok = is_call(src, "into_iter") and norm(strip_try(look(src[2][0]))) == norm(rd[0][4])
+            if wraps_in_read and not src_ok and is_call(src, "into_iter"):
+                # inside read(): mapped over the local vector the drained requests were pushed onto
+                base = look(src[2][0])
+                while base[0] == "mut":
+                    base = look(base[1])
+                src_ok = any(e2[0] == "call" and last_seg(e2[3]) == "push" and same_vec(e2[4][2][0], base) and payload_of(e2[4][2][1]) is not None and is_call(payload_of(e2[4][2][1]), conn.P + "pop_parsed_request") for e2 in lf.events) or is_empty_vec(base)
             ctx.ob("R07.1", "wrap|captures-this-event", cap_ok, "the closure that wraps requests captures the event being handled (or its data() taken just before)", fn.loc(m[1]))
             ctx.ob("R07.1", "wrap|over-requests-just-read", src_ok, "it is mapped over the requests read() just returned for that event", fn.loc(m[1]))
             ctx.ob("R07.1", "wrap|yielded", reaches_yield(lf, m[4]), "the wrapped requests are added to the vector requests() returns", fn.loc(m[1]))
@@ -137,7 +152,7 @@ def ids(ctx):
     roots = set()
     for c in callers:
         roots |= roots_of(facts, c) or {c}
-    ctx.ob("R07.1", "ServerRequest::new|callers", all(c.startswith(srv.REQUESTS) for c in roots), "ServerRequest::new is called from %s (on behalf of %s)" % (sorted(callers), sorted(roots)))
+    ctx.ob("R07.1", "ServerRequest::new|callers", all(c.startswith(srv.REQUESTS) or c == CC + "read" for c in roots), "ServerRequest::new is called from %s (on behalf of %s)" % (sorted(callers), sorted(roots)))
 
 
 def producers(ctx, rule):
@@ -227,11 +242,12 @@ def counter(ctx):
         rk = ret_kind(lf)
         if rk is None or rk[0] != "Ok":
             continue
-        ret = look(rk[1])
+        ry = srv.read_yield(facts, lf)
+        ret = ry["vec"] if ry["vec"] is not None else ("unknown", "nothing-yielded")
         a = [e for e in lf.events if e[0] == "assign" and e[3] == "(*_1).in_flight_response_count"]
         closed = any(e[0] == "assign" and e[3] == "(*_1).state" and srv.state_const(facts, e[4]) == "Closed" for e in lf.events)
         if closed:
-            ctx.ob("R07.6", "read|closed-yields-nothing", is_empty_vec(ret) and not a, "on ConnectionClosed read() yields nothing and leaves the counter", fn.loc(lf.bb))
+            ctx.ob("R07.6", "read|closed-yields-nothing", ry["empty"] and not a, "on ConnectionClosed read() yields nothing and leaves the counter", fn.loc(lf.bb))
             continue
         n += 1
         ok = len(a) == 1
@@ -249,6 +265,8 @@ def counter(ctx):
                     src = payload_of(y)
                     src = look(strip_map_err(src)) if src is not None else None
                     oky = src is not None and is_call(src, "try_from", "try_into") and len(src[2]) == 1 and is_call(look(src[2][0]), "len") and same_vec(look(look(src[2][0])[2][0]), ret)
+                if not oky and ry["form"] == "out-param" and ry["vec"] is None:
+                    oky = counted_by_length_difference(facts, lf, y, ry)
                 ok = okx and oky
         ctx.ob("R07.6", "read|counter-plus-returned", ok, "in_flight += len(exactly the vector read() returns)", fn.loc(lf.bb))
     ctx.ob("R07.6", "read|floor", n >= 4, "%d Ok paths of read() inspected (floor 4)" % n)
@@ -282,6 +300,44 @@ def counter(ctx):
 def is_empty_vec(t):
     t = look(t)
     return is_call(t, "new") and "Vec" in t[1]
+
+
+def counted_by_length_difference(facts, lf, y, ry):
+    """`let before = out.len(); .. out.push(wrap(popped)) ..; count = out.len() - before`: the amount added to the counter is
+    the number of items this call pushed onto the caller's vector -- the first len() is taken before anything is popped,
+    the last after the drain, and nothing but `push` (and `len`) is ever applied to the caller's vector in read()."""
+    from .fields import param_consumers
+    y = look(y)
+    while y[0] == "cast":
+        y = look(y[1])
+    if y[0] == "field" and y[2] == "tuple" and y[3] == "0":
+        y = look(y[1])
+    if not (y[0] == "bin" and y[1] in ("Sub", "SubWithOverflow", "SubUnchecked")):
+        return False
+    a, b = look(y[2]), look(y[3])
+
+    def is_len_of_out(t):
+        if not is_call(t, "len"):
+            return False
+        r = look(t[2][0])
+        while r[0] == "mut":
+            r = look(r[1])
+        return r[0] == "arg" and r[1] in ry["param"]
+
+    if not (is_len_of_out(a) and is_len_of_out(b)) or a[3] == b[3]:
+        return False
+    lens = [i for i, e in enumerate(lf.events) if e[0] == "call" and is_len_of_out(e[4])]
+    pops = [i for i, e in enumerate(lf.events) if e[0] == "call" and e[3] == conn.P + "pop_parsed_request"]
+    if len(lens) < 2 or (pops and not (lens[0] < min(pops) and max(pops) < lens[-1])):
+        return False
+    if lf.events[lens[0]][4][3] != b[3] or lf.events[lens[-1]][4][3] != a[3]:
+        return False        # minuend = the length taken last, subtrahend = the one taken first
+    fr = facts.fns[CC + "read"]
+    for k in ry["param"]:
+        for t in param_consumers(fr, k):
+            if t is None or last_seg(t["callee"].get("path") or "") not in ("push", "len"):
+                return False
+    return True
 
 
 def same_vec(a, b):
